@@ -109,6 +109,8 @@ def is_cyclic(v):
 
 
 def proj_val(v, ref=REF):
+    if v is None:
+        return 0  # abstract value 0 is concretised as 0 or as None (see falsy)
     if isinstance(v, int):
         return v
     if is_fd(v) and is_cyclic(v):
@@ -126,9 +128,14 @@ def same(c, obj):
     cyclic (== on cyclic dictionaries raises RecursionError for ANY implementation)"""
     if type(c) is not type(obj) or proj(c, "ref") != proj(obj, "ref"):
         return False
-    if any(not isinstance(v, int) for v in dict.values(obj)):
+    if any(is_fd(v) for v in dict.values(obj)):
         return True
     return bool(c == obj and dict(c) == dict(obj))
+
+
+def falsy(v, n):
+    """abstract value 0 is a falsy value: the integer 0 or (every third time) None, the value dict methods default to"""
+    return None if v == 0 and n % 3 == 1 else v
 
 
 def loop_of(T, via_list=False):
@@ -170,6 +177,7 @@ def exec_case(arg):
         steps += 1
         exc = None
         v = o.get("v")
+        v = falsy(v, len(hist) + steps)
         if v == REF:
             v = concrete(v, obj, T, direct=(not op.startswith("construct")) and (len(hist) + steps) % 2 == 0, via_list=(len(hist) + steps) % 4 == 1)
         try:
@@ -293,6 +301,8 @@ def record_case(arg):
         op = rnd.choice(["construct", "construct_fd", "construct_mixed", "update_mixed", "setitem", "setitem", "setdefault", "update_dict", "update_pairs", "update_kwargs", "update_fd", "ior", "ior", "ior_fd", "copy", "pickle"])
         v = rnd.randrange(3)
         o = {"op": op, "v": v}
+        if v == 0 and rnd.random() < 0.4:
+            v = None  # recorded as 0
         if rnd.random() < 0.15:
             # a value that is a dictionary reachable from itself: the object under test (in-place operations) or a
             # companion that contains itself; recorded as TREF
